@@ -850,6 +850,299 @@ def do_sizes(item):
 
 
 # ---------------------------------------------------------------------------------
+# item family: history - answers must not depend on what the operand objects were
+# asked before (regions are semantically immutable; caches are an implementation detail)
+# ---------------------------------------------------------------------------------
+def _box(z, dims=(3.0, 2.0, 2.0), xy=(0.5, 0.25), yaw=0.4):
+    return {"kind": "box", "pos": [xy[0], xy[1], float(z)], "dims": list(dims), "ypr": [yaw, 0.0, 0.0]}
+
+
+# The footprint caches one vertical slab (approxBoundFootprint pads the requested height by
+# 100 * max(1, centerZ)).  A first query by a 2 m box centred at z = 1.5 requests
+# centre 1.5 / height 3 and caches the slab z in [-223.5, 226.5]; the partners below fall
+# inside, across the top, across the bottom and outside of that slab and of each other's.
+HIST_FP = {"kind": "footprint", "exterior": [[-0.75, -1.0], [2.0, -1.0], [2.0, 1.25], [-0.75, 1.25]], "holes": []}
+HIST_PARTNERS = {
+    "low": _box(1.5),
+    "high": _box(100.0),  # inside the slab of 'low'; its own slab is 100 times wider
+    "top": _box(226.5, dims=(3.0, 2.0, 20.0)),  # across the top of the slab of 'low'
+    "bottom": _box(-223.5, dims=(3.0, 2.0, 20.0)),  # across its bottom
+    "neg": _box(-300.0),  # below it; caches a narrow slab [-450, -150]
+    "far": _box(1000.0),  # above it
+    "vfar": _box(20000.0),  # above the slab of 'high' ([-14900, 15100])
+    "wide": _box(2.0, dims=(1.0, 1.0, 6.0), xy=(1.5, -0.25), yaw=0.0),  # small in x/y, taller, translated
+    "cube-surface": {"kind": "mesh", "surface": True, "cells": [(0, 0, 0)], "pos": [0.5, 0.25, 226.5], "dims": [2.0, 2.0, 12.0], "ypr": [0.0, 0.0, 0.0]},
+    "path": {"kind": "path", "points": [[-2.25, -1.0, 0.5], [0.0, 0.25, 1.5], [1.75, -0.75, 1.5], [2.5, 2.0, 3.0]]},
+    "path-top": {"kind": "path", "points": [[-2.0, -0.5, 220.0], [1.0, 0.5, 226.5], [2.5, 0.0, 233.0]]},
+    "inside-notch": {"kind": "box", "pos": [0.25, 0.5, 1.5], "dims": [0.5, 1.0, 0.5], "ypr": [0.0, 0.0, 0.0]},
+    "apart": _box(1.5, xy=(9.5, 0.25)),
+    "pset": {"kind": "pset", "points": [[x * 0.5 - 1.0, y * 0.5 - 1.0, 1.5] for x in range(6) for y in range(6)]},
+    "circle": {"kind": "circle", "center": [0.5, 0.25, Z0], "r": 1.75},
+}
+MESH_U = {"kind": "mesh", "cells": U_CELLS, "pos": [0.25, 0.0, 1.5], "dims": [3.0, 3.0, 1.5], "ypr": [0.0, 0.0, 0.0]}
+
+
+def hist_subjects(tier):
+    """subject name -> (spec, accessor, prior alphabet, probe actions).  An action is
+    (position, operation, partner): position 'A' = subject.op(partner), 'B' =
+    partner.op(subject), 'S' = a query on the subject alone."""
+    th = tier == "thorough"
+    fp_priors = [("B", "intersects", "low"), ("B", "intersects", "high"), ("B", "intersects", "neg"), ("A", "intersect", "path"), ("B", "intersects", "top")]
+    if th:
+        fp_priors += [("B", "difference", "far"), ("B", "intersect", "neg"), ("B", "intersects", "cube-surface"), ("A", "intersects", "wide")]
+    fp_probes = [
+        ("B", "intersect", "top"),
+        ("B", "difference", "top"),
+        ("B", "intersects", "top"),
+        ("A", "intersect", "top"),
+        ("B", "intersect", "bottom"),
+        ("B", "intersects", "cube-surface"),
+        ("B", "intersect", "low"),
+        ("A", "intersect", "path-top"),
+    ]
+    if th:
+        fp_probes += [("B", "difference", "wide"), ("B", "intersects", "far"), ("A", "intersects", "bottom"), ("B", "difference", "bottom"), ("B", "intersect", "vfar"), ("B", "intersect", "high"), ("A", "intersect", "path"), ("B", "difference", "low")]
+    poly = {"kind": "polygon", "exterior": HIST_FP["exterior"], "holes": [], "z": Z0}
+    mesh_priors = [("A", "intersects", "low"), ("A", "intersects", "inside-notch"), ("A", "intersect", "wide"), ("S", "distanceTo", None)]
+    if th:
+        mesh_priors += [("B", "intersects", "apart"), ("S", "surface", None), ("B", "difference", "low")]
+    mesh_probes = [("A", "intersects", "inside-notch"), ("B", "intersects", "low"), ("A", "intersect", "low"), ("S", "distanceTo", None), ("S", "AABB", None)]
+    if th:
+        mesh_probes += [("B", "difference", "wide"), ("A", "intersects", "apart")]
+    small_priors = [("S", "containsPoint", None), ("S", "distanceTo", None), ("B", "intersects", "low"), ("S", "AABB", None)]
+    small_probes = [("S", "containsPoint", None), ("S", "distanceTo", None), ("B", "intersects", "low"), ("S", "AABB", None), ("B", "intersect", "low")]
+    return {
+        "footprint": (HIST_FP, None, fp_priors, fp_probes),
+        # the footprint object that a polygon hands out must be the same stateful object
+        "polygon.footprint": (poly, "footprint", fp_priors[:3], fp_probes[:3] + fp_probes[6:7]),
+        "meshvol": (MESH_U, None, mesh_priors, mesh_probes),
+        "pset": (HIST_PARTNERS["pset"], None, small_priors[:3], small_probes[:4]),
+        "path": (HIST_PARTNERS["path"], None, small_priors, small_probes),
+        "difference(box,circle)": ({"derived": "difference", "a": HIST_PARTNERS["low"], "b": HIST_PARTNERS["circle"]}, None, small_priors[:1] + small_priors[3:], small_probes[:1]),
+    }
+
+
+def _hist_build(spec):
+    if "derived" in spec:
+        return getattr(build(spec["a"]), spec["derived"])(build(spec["b"]))
+    return build(spec)
+
+
+def _hist_oracle(spec):
+    return None if "derived" in spec else S.oracle(spec)
+
+
+def _hist_probes(sspec, pspec):
+    """A small probe set around the partner (or the subject when there is none)."""
+    o = S.oracle(pspec) if pspec is not None else (S.oracle(sspec) if "derived" not in sspec else S.oracle(sspec["a"]))
+    lo, hi = o.aabb()
+    if not (np.all(np.isfinite(lo)) and np.all(np.isfinite(hi))):
+        lo, hi = np.array([-1.0, -1.25, 0.0]), np.array([2.25, 1.5, 3.0])
+    pad = 0.15 * (hi - lo) + 0.1
+    lo, hi = lo - pad, hi + pad
+    ax = [lo[i] + (np.arange(n) + 0.5) / n * (hi[i] - lo[i]) for i, n in enumerate((2, 2, 6))]
+    P = np.stack(np.meshgrid(*ax, indexing="ij"), axis=-1).reshape(-1, 3)
+    # plus the vertical line through the centre (inside partner and subject for the shapes used)
+    mid = np.stack([np.full(6, (lo[0] + hi[0]) / 2), np.full(6, (lo[1] + hi[1]) / 2), ax[2]], axis=1)
+    P = np.concatenate([P, mid])
+    on = o.on_probes()
+    if len(on):
+        P = np.concatenate([P, on[:: max(1, len(on) // 12)]])
+    return P, float(np.linalg.norm(hi - lo))
+
+
+def _hist_act(subject, accessor, action, sspec):
+    """Perform one action; returns a comparable observation."""
+    from scenic.core import regions as R
+
+    pos, op, pname = action
+    subj = getattr(subject, accessor) if accessor else subject
+    pspec = HIST_PARTNERS[pname] if pname else None
+    try:
+        if pos == "S":
+            if op in ("containsPoint", "distanceTo"):
+                P, _ = _hist_probes(sspec, None)
+                f = getattr(subj, op)
+                return ("vals", [float(f(vec(p))) for p in P])
+            if op == "AABB":
+                bb = subj.AABB
+                return ("vals", [float(x) for x in bb[0]] + [float(x) for x in bb[1]])
+            if op == "surface":
+                return ("vals", [float(subj.getSurfaceRegion().size)])
+            raise ValueError(op)
+        partner = build(pspec)  # partners are always fresh objects
+        a, b = (subj, partner) if pos == "A" else (partner, subj)
+        if op in ("intersects", "containsRegion"):
+            return ("bool", bool(getattr(a, op)(b)))
+        Rg = getattr(a, op)(b)
+        P, _ = _hist_probes(sspec, pspec)
+        cp = [bool(Rg.containsPoint(vec(p))) for p in P]
+        try:
+            bb = Rg.AABB
+            bb = [float(x) for x in bb[0]] + [float(x) for x in bb[1]]
+        except Exception:  # noqa
+            bb = None
+        return ("region", tname(Rg), cp, bb)
+    except Exception as e:  # noqa
+        return ("exc", type(e).__name__, str(e)[:120])
+
+
+def _hist_same(x, y, ok=None):
+    if x[0] != y[0]:
+        return False
+    if x[0] == "bool" or x[0] == "exc":
+        return x[:2] == y[:2]
+    if x[0] == "vals":
+        return len(x[1]) == len(y[1]) and bool(np.allclose(x[1], y[1], rtol=0, atol=1e-6))
+    if x[0] == "region":
+        # (an EmptyRegion and a region without clear members are the same set)
+        cx, cy = np.array(x[2]), np.array(y[2])
+        sel = ok if ok is not None else np.ones(len(cx), bool)
+        if np.any(cx[sel] != cy[sel]):
+            return False
+        if x[3] is not None and y[3] is not None and not np.allclose(x[3], y[3], rtol=0, atol=1e-3):
+            return False
+        return True
+    return False
+
+
+def do_hist(item):
+    """One (subject, probe action): every sequence of <= L prior actions on the same
+    subject object, then the probe; its answer must equal the answer of a fresh subject
+    (and the analytic expectation)."""
+    import itertools
+
+    warnings.filterwarnings("ignore")
+    from scenic.core import regions as R
+
+    res = new_res(item)
+    c = res["counts"]
+    sspec, accessor, priors, probes = hist_subjects(item["tier"])[item["subject"]]
+    probe = probes[item["probe"]]
+    L = item["L"]
+    pos, op, pname = probe
+    pspec = HIST_PARTNERS[pname] if pname else None
+
+    # harness-side view of the footprint's slab cache: what happened at each lookup
+    events = []
+    orig = R.PolygonalFootprintRegion.approxBoundFootprint
+
+    def spy(self, centerZ, height):
+        before = self._bounded_cache
+        out = orig(self, centerZ, height)
+        after = self._bounded_cache
+        if before is None:
+            ev = "populate"
+        elif after is before:
+            ev = "reuse"
+        else:
+            ev = "replace"
+        if before is not None:
+            top, bot = before[0] + before[1] / 2, before[0] - before[1] / 2
+            rt, rb = centerZ + height / 2, centerZ - height / 2
+            if (rb < top < rt) or (rb < bot < rt):
+                ev += "+straddle"
+        events.append(ev)
+        return out
+
+    R.PolygonalFootprintRegion.approxBoundFootprint = spy
+    try:
+        fresh_subject = _hist_build(sspec)
+        T = tname(getattr(fresh_subject, accessor) if accessor else fresh_subject)
+        res["pair"] = T
+        fresh = _hist_act(fresh_subject, accessor, probe, sspec)
+        # analytic expectation for the probe
+        ok = None
+        want = None
+        so = _hist_oracle(sspec)
+        if so is not None and pspec is not None and fresh[0] in ("region", "bool"):
+            po = S.oracle(pspec)
+            P, diag = _hist_probes(sspec, pspec)
+            margin = 1e-3 * diag
+            # a polygon's footprint is the infinite column over the polygon
+            col = so.column(P) if accessor == "footprint" else so.member(P)
+            clr = so.col_clear(P) if accessor == "footprint" else so.clear(P)
+            mp = po.member(P)
+            ok = (np.minimum(clr, po.clear(P)) >= margin)
+            a, b = (col, mp) if pos == "A" else (mp, col)
+            if fresh[0] == "region":
+                want = ("region", apply_op(op, a, b))
+            elif op == "intersects":
+                both = ok & col & mp
+                slo, shi = so.aabb()
+                plo, phi = po.aabb()
+                if accessor == "footprint":
+                    slo, shi = slo.copy(), shi.copy()
+                    slo[2], shi[2] = -np.inf, np.inf
+                sep = np.max(np.maximum(plo - shi, slo - phi))
+                want = ("bool", True) if both.any() else (("bool", False) if sep > 10 * margin else None)
+
+        def judge(obs):
+            if want is None or obs[0] != want[0]:
+                return True
+            if want[0] == "bool":
+                return obs[1] == want[1]
+            return not np.any(ok & (np.array(obs[2]) != want[1]))
+
+        fresh_ok = judge(fresh)
+        seqs = [()]
+        for k in range(1, L + 1):
+            seqs += list(itertools.product(range(len(priors)), repeat=k))
+        diffs, wrong = [], []
+        for seq in seqs:
+            subject = _hist_build(sspec)
+            for i in seq:
+                _hist_act(subject, accessor, priors[i], sspec)
+            n0 = len(events)
+            warm = sum(1 for k_ in vars(getattr(subject, accessor) if accessor else subject) if k_.startswith("_cached_"))
+            obs = _hist_act(subject, accessor, probe, sspec)
+            ev = events[n0:]
+            res["judged"] += 1
+            c["sequences"] = c.get("sequences", 0) + 1
+            if warm:
+                c["warm_sequences"] = c.get("warm_sequences", 0) + 1
+            for e in set(x for ee in ev for x in ee.split("+")):
+                c["probe_cache_" + e] = c.get("probe_cache_" + e, 0) + 1
+            if not _hist_same(obs, fresh, ok):
+                diffs.append((seq, obs))
+            elif not judge(obs):
+                wrong.append((seq, obs))
+
+        def show(o):
+            if o[0] == "region":
+                return f"{o[1]} with {sum(o[2])} of {len(o[2])} probes inside, AABB {None if o[3] is None else [round(v, 3) for v in o[3]]}"
+            if o[0] == "vals":
+                return "values " + str([round(v, 4) for v in o[1][:6]]) + "..."
+            return str(o[1:])
+
+        def fmtseq(seq):
+            return " ; ".join(f"{'S.' + priors[i][1] + '(' + str(priors[i][2]) + ')' if priors[i][0] != 'B' else str(priors[i][2]) + '.' + priors[i][1] + '(S)'}" for i in seq) or "(none)"
+
+        pdesc = f"{'S.' + op + '(' + str(pname) + ')' if pos != 'B' else str(pname) + '.' + op + '(S)'}"
+        if diffs:
+            seq, obs = diffs[0]
+            viol(
+                res,
+                f"history:{T}:answer-depends-on-earlier-queries",
+                f"subject S = {item['subject']} {sspec}; probe query {pdesc} with partner {pspec}: {len(diffs)} of {len(seqs)} histories change the answer. "
+                f"After [{fmtseq(seq)}] on the same object the probe gives {show(obs)}; a fresh object gives {show(fresh)}"
+                + ("" if want is None else f" (the fresh answer {'agrees' if fresh_ok else 'disagrees'} with the analytic expectation)")
+                + ". Other histories: " + "; ".join("[" + fmtseq(s_) + "]" for s_, _ in diffs[1:5]),
+                item,
+            )
+        if wrong or not fresh_ok:
+            viol(
+                res,
+                f"history:{T}:{op}:wrong-answer",
+                f"subject S = {item['subject']} {sspec}; probe query {pdesc} with partner {pspec}: the answer {show(fresh)} (same after {len(wrong)} histories) disagrees with the analytic expectation",
+                item,
+            )
+    finally:
+        R.PolygonalFootprintRegion.approxBoundFootprint = orig
+    return res
+
+
+# ---------------------------------------------------------------------------------
 # work list
 # ---------------------------------------------------------------------------------
 def lowered(spec, dz):
@@ -908,6 +1201,9 @@ def plan(tier):
         for d in AXES:
             items.append({"t": "proj", "name": "meshvolU-rot", "a": rot, "dirs": [list(d)], "n3": 10, "n2": 5})
     items += extra_items(n3, n2)
+    for name, (_, _, _, probes) in hist_subjects(tier).items():
+        for pi in range(len(probes)):
+            items.append({"t": "hist", "tier": tier, "subject": name, "probe": pi, "L": 2 if tier == "quick" else 3})
     for na, sa in shp:
         for nb, sb in shp:
             if na == nb:  # same kind and shape: use a displaced copy as second operand
@@ -966,7 +1262,7 @@ def plan(tier):
 
 def dispatch(item):
     try:
-        return {"op": do_op, "prim": do_prim, "rel": do_rel, "proj": do_proj, "sizes": do_sizes}[item["t"]](item)
+        return {"op": do_op, "prim": do_prim, "rel": do_rel, "proj": do_proj, "sizes": do_sizes, "hist": do_hist}[item["t"]](item)
     except Exception as e:  # harness-side failure: never hide it
         import traceback
 
@@ -982,6 +1278,8 @@ def label(item):
         return f"{item['t']}({item['names'][0]},{item['names'][1]})"
     if item["t"] == "proj":
         return f"proj({item['name']},{item.get('dirs')})"
+    if item["t"] == "hist":
+        return f"hist({item['subject']},probe{item['probe']},L{item['L']})"
     return f"{item['t']}({item['name']})"
 
 
@@ -994,7 +1292,7 @@ def run(ctx):
     informative = uninformative = 0
     uninf = []
     result_types = {}
-    per_type = {"op": 0, "prim": 0, "rel": 0, "proj": 0, "sizes": 0}
+    per_type = {"op": 0, "prim": 0, "rel": 0, "proj": 0, "sizes": 0, "hist": 0}
     nviol = {}
     allv = []
     for r in ctx.pmap(dispatch, items, chunksize=2):
@@ -1035,7 +1333,7 @@ def run(ctx):
             ctx.violation(sig, desc, case)
     if tot["judged"] == 0 or informative == 0:
         raise HarnessError("vacuous: no judged probe / no informative (pair, op)")
-    need = ["lazy_results", "incl_excl", "intersects_True", "intersects_False", "contains_True", "contains_False", "dist_zero", "dist_pos", "two-sided", "two-sided-nearest-behind", "one-sided", "nohit", "member"]
+    need = ["sequences", "warm_sequences", "probe_cache_reuse", "probe_cache_replace", "probe_cache_straddle", "probe_cache_populate", "lazy_results", "incl_excl", "intersects_True", "intersects_False", "contains_True", "contains_False", "dist_zero", "dist_pos", "two-sided", "two-sided-nearest-behind", "one-sided", "nohit", "member"]
     if ctx.tier == "thorough":
         need.append("multi_hit")
     missing = [k for k in need if not counts.get(k)]
